@@ -12,7 +12,9 @@
 import base64
 import json
 import os
+import re
 import sys
+from xml.sax.saxutils import escape, unescape
 from concurrent.futures import ThreadPoolExecutor
 
 from vlib import core
@@ -91,11 +93,55 @@ def gen_cases(ctx):
         for f in sorted(os.listdir(CORPUS)):
             fmt = "xml" if f.endswith(".xml") else "xta"
             add(fmt, open(os.path.join(CORPUS, f)).read(), "corpus:" + f)
+    # dynamic templates and quantifiers over their instances (`forall (p : Child) p.x`): the quantifier looks members up in the dynamic
+    # template's frame; complete, with unknown members, cut short by a syntax error -- in every label kind of a later template that
+    # shares location names with the dynamic one
+    dyn_bodies = ["p.cc == 0", "p.nosuch == 0", "p.cc == 0 && p.nosuch > 1", "p.Idle", "p.nosuch"]
+    for body in dyn_bodies:
+        for shape in ("forall (p : Child) (%s)", "forall (p : Child) (%s", "exists (p : Child) (%s) && gg > 0", "gg > 0 && (exists (p : Child) (%s",
+                      "forall (p : Child) (exists (q : Child) (q.cc == 1 && %s))", "forall (p : Child) (exists (q : Child) (q.nosuch == 1 && %s"):
+            for place in ("inv", "guard", "assign"):
+                e = shape % body
+                inv = e if place == "inv" else "gg >= 0"
+                grd = e if place == "guard" else "gg >= 0"
+                asg = ("gg = (%s) ? 1 : 0" % e) if place == "assign" else "gg = 1"
+                x = ('<?xml version="1.0" encoding="utf-8"?><nta><declaration>dynamic Child(); int gg;</declaration>'
+                     '<template><name>Child</name><declaration>int cc;</declaration><location id="c0"><name>Idle</name></location>'
+                     '<location id="c1"><name>Busy</name></location><init ref="c0"/>'
+                     '<transition><source ref="c0"/><target ref="c1"/></transition></template>'
+                     '<template><name>Parent</name><declaration>int pv;</declaration>'
+                     '<location id="p0"><name>Idle</name><label kind="invariant">%s</label></location><location id="p1"><name>Busy</name></location><init ref="p0"/>'
+                     '<transition><source ref="p0"/><target ref="p1"/><label kind="guard">%s</label><label kind="assignment">%s</label></transition>'
+                     '<transition><source ref="p1"/><target ref="p0"/><label kind="assignment">spawn Child()</label></transition></template>'
+                     '<system>system Parent;</system></nta>' % (escape(inv), escape(grd), escape(asg)))
+                add("xml", x, "dynamic:%s:%s" % (place, "balanced" if e.count("(") == e.count(")") else "cut"), trace=False)
     for mi in range(n_models):
         m = G.gen_model(r)
         xml, xta = G.to_xml(m), G.to_xta(m)
         add("xml", xml, "valid")
         add("xta", xta, "valid")
+        # the same model followed by queries on members of its processes (a query parse must leave the document as it was)
+        qs = []
+        for pn in m["processes"]:
+            ti = int(re.sub(r"\D", "", pn) or 0) if re.match(r"[PQRT]\d", pn) else None
+            if ti is None or ti >= len(m["templates"]):
+                continue
+            t = m["templates"][ti]
+            if pn.startswith("Q"):
+                procs = ["%s(0)" % pn, "%s(1)" % pn]
+            elif pn.startswith("T") and t["params"]:
+                procs = ["%s(%s)" % (pn, ", ".join("0" for _ in t["params"])), "%s(%s)" % (pn, ", ".join("1" for _ in t["params"]))]
+            else:
+                procs = [pn]
+            members = [l["name"] for l in t["locs"] if l["name"]][:2] + [v for v in t["env"].ints if v.startswith("l%d_" % ti)][:2]
+            for pr in procs:
+                for mb in members:
+                    qs.append("E<> %s.%s" % (pr, mb) + ("" if mb.startswith("L") else " >= 0"))
+                qs.append("A[] %s.nosuchmember >= 0" % pr)
+                qs.append("E<> forall (qq : int[0,1]) %s.%s" % (pr, members[0]) if members else "E<> true")
+        if qs:
+            add("xml", xml + "\n%%QUERIES%%\n" + "\n".join(qs) + "\n", "valid+queries", trace=False)
+            cases[-1] = cases[-1][:3] + ("wq",) + cases[-1][4:]
         # semantic / structural faults on the abstract model ------------------------------------------------------
         for _ in range(6):
             import copy
@@ -179,10 +225,9 @@ def gen_cases(ctx):
             add("xta", t2, "token:" + fk, trace=(r.random() < 0.5))
         for _ in range(6 if not ctx.thorough else 12):
             # mutate the text of one XML text node
-            import re
+            pass
             nodes = list(re.finditer(r">([^<>]*[A-Za-z0-9][^<>]*)<", xml))
             nd = r.choice(nodes)
-            from xml.sax.saxutils import unescape, escape
             fk, t2 = G.mutate_text(r, unescape(nd.group(1)))
             add("xml", xml[:nd.start(1)] + escape(t2) + xml[nd.end(1):], "xmltext:" + fk, trace=(r.random() < 0.5))
         # raw XML structure faults: drop / duplicate one element or attribute ---------------------------------------------
@@ -240,8 +285,11 @@ def analyse(ctx, cases, res, crashes):
                     objs["nontrivial"] += 1
                 if len(samples) < 4 and kk in ("valid", "fault", "token", "xmlstruct") and kk not in [s["kind"].split(":")[0] for s in samples]:
                     samples.append({"kind": kind, "format": fmt, "result": line, "input_head": text[:300]})
-            if line.startswith("WALK ") or line.startswith("TWALK "):
-                clause = line.split()[1]
+            if line.startswith("QRY "):
+                objs["query_batches"] = objs.get("query_batches", 0) + 1
+                objs["queries"] = objs.get("queries", 0) + int(line.split()[1].split("=")[1])
+            if line.startswith("WALK ") or line.startswith("TWALK ") or line.startswith("QWALK "):
+                clause = ("after-query:" if line.startswith("QWALK") else "") + line.split()[1]
                 viol.setdefault(clause, []).append((cid, fmt, kind, line, text))
     cov["input_distribution"] = dist
     cov["documents"] = objs
